@@ -104,9 +104,32 @@ func TestVerif_C09(t *testing.T) {
 	rng := r.Rand()
 	nh := r.N(6, 300)
 	accepted, rejected := 0, 0
-	for hi := 0; hi < nh; hi++ {
+	// two more histories are directed: all-genesis memberships whose size crosses a multiple of three when one more
+	// node is counted (8, 11, 14, 17, 20), with a pledge that stays pending around and beyond its twelfth hour (the
+	// situation right before every acceptance)
+	for hi := 0; hi < nh+2; hi++ {
 		var h *verifHistory
-		if hi%3 == 2 {
+		var directed []uint64
+		if hi >= nh {
+			n := []int{8, 11, 14, 17, 20}[(int(r.Seed)+hi)%5]
+			label := fmt.Sprintf("c09-pending-pledge-%d-%d", r.Seed, hi)
+			epoch := uint64(1_700_000_000) * uint64(time.Second)
+			h = &verifHistory{Label: label, Epoch: epoch, Genesis: map[crypto.Hash]bool{}}
+			h.NetworkId = crypto.Blake3Hash([]byte("verif-net:" + label))
+			for i := 0; i < n; i++ {
+				m := h.member(i)
+				h.Genesis[m.Id] = true
+				h.add(m, common.NodeStateAccepted, epoch)
+			}
+			pledgedAt := epoch + 5*OneDay + uint64(rng.Intn(int(6*time.Hour)))
+			h.add(h.member(n), common.NodeStatePledging, pledgedAt)
+			h.sortRecords()
+			for _, d := range []time.Duration{time.Hour, 11 * time.Hour, 12*time.Hour - 91*time.Second, 12*time.Hour - 90*time.Second, 12*time.Hour - 89*time.Second,
+				12*time.Hour - 1, 12 * time.Hour, 12*time.Hour + 1, 13 * time.Hour, 30 * time.Hour, 6 * 24 * time.Hour} {
+				directed = append(directed, pledgedAt+uint64(d))
+			}
+			r.Count("directed_pending_pledge_histories", 1)
+		} else if hi%3 == 2 {
 			h = verifLegacyHistory(fmt.Sprintf("c09-%d-%d", r.Seed, hi), rng, 8+rng.Intn(13), 5+rng.Intn(36))
 			r.Count("legacy_rule_histories", 1)
 		} else {
@@ -129,6 +152,9 @@ func TestVerif_C09(t *testing.T) {
 			times = times[:nq]
 		}
 		times = append(vC09LegacyTimes(h, rng), times...)
+		if directed != nil {
+			times = directed
+		}
 		for _, ts := range times {
 			c := &vC09Case{h: h}
 			// chain: an accepted member, or the pledging node's own chain at round 0
